@@ -903,6 +903,68 @@ def flatten_else(tree: ast.Module) -> int:
     return n_done
 
 
+def canonical_forms(tree: ast.Module) -> tuple[int, int]:
+    """Two more canonical forms, applied to every analysed module (like flatten_else; identities on the meaning of the code):
+    (1) `a, b = x, y` with plain local names on the left and a tuple display of the same length on the right is split into `a = x` / `b = y`
+    when no later value mentions an earlier target and no later value contains a call (so evaluating it cannot observe the earlier binding
+    through a closure) — x is evaluated before y either way;  (2) `not (a and b)` / `not (a or b)` is distributed to `not a or not b` /
+    `not a and not b` (same operands evaluated in the same order with the same short-circuit).  Returns (splits, distributions)."""
+    n_split = n_dist = 0
+
+    class D(ast.NodeTransformer):
+        def visit_UnaryOp(self, n):
+            nonlocal n_dist
+            self.generic_visit(n)
+            if isinstance(n.op, ast.Not) and isinstance(n.operand, ast.BoolOp):
+                flip = ast.Or() if isinstance(n.operand.op, ast.And) else ast.And()
+                n_dist += 1
+                return ast.copy_location(ast.BoolOp(op=flip, values=[_negated(v) for v in n.operand.values]), n)
+            return n
+
+    def splittable(st):
+        if not (isinstance(st, ast.Assign) and len(st.targets) == 1 and isinstance(st.targets[0], ast.Tuple) and isinstance(st.value, ast.Tuple)
+                and len(st.targets[0].elts) == len(st.value.elts) >= 2 and all(isinstance(t, ast.Name) for t in st.targets[0].elts)
+                and not any(isinstance(v, ast.Starred) for v in st.value.elts)):
+            return False
+        names = [t.id for t in st.targets[0].elts]
+        if len(set(names)) != len(names):
+            return False
+        for j, v in enumerate(st.value.elts):
+            if j == 0:
+                continue
+            if any(isinstance(x, (ast.Call, ast.Yield, ast.YieldFrom, ast.Await, ast.NamedExpr, ast.Lambda)) for x in ast.walk(v)):
+                return False
+            if any(isinstance(x, ast.Name) and x.id in names[:j] for x in ast.walk(v)):
+                return False
+        # an earlier value must not read a later target either (it would see the old binding in both forms — fine) — nothing to check
+        return True
+
+    def block(b):
+        nonlocal n_split
+        out = []
+        for st in b:
+            for fld in ("body", "orelse", "finalbody"):
+                sub = getattr(st, fld, None)
+                if isinstance(sub, list) and sub and isinstance(sub[0], ast.stmt):
+                    setattr(st, fld, block(sub))
+            for h in getattr(st, "handlers", []) or []:
+                h.body = block(h.body)
+            for c_ in getattr(st, "cases", []) or []:
+                c_.body = block(c_.body)
+            if splittable(st):
+                n_split += 1
+                for t, v in zip(st.targets[0].elts, st.value.elts):
+                    out.append(ast.copy_location(ast.Assign(targets=[t], value=v, lineno=st.lineno), st))
+            else:
+                out.append(st)
+        return out
+
+    tree.body = block(tree.body)
+    D().visit(tree)
+    ast.fix_missing_locations(tree)
+    return n_split, n_dist
+
+
 def restore_spellings(tree: ast.Module, relpath: str) -> int:
     """Undo three purely notational edits where the reference tree has the other spelling of the *same* expression in the same function:
     a mirrored comparison (`b > a` for `a < b`), an expanded augmented assignment (`x = x + e` for `x += e`) and an inverted if/else
@@ -1032,7 +1094,7 @@ def restore_spellings(tree: ast.Module, relpath: str) -> int:
                 for fld in ("body", "orelse", "finalbody"):
                     sub = getattr(st, fld, None)
                     if isinstance(sub, list) and sub and isinstance(sub[0], ast.stmt) and not isinstance(st, (ast.FunctionDef, ast.AsyncFunctionDef, ast.ClassDef)):
-                        setattr(st, fld, unstatement(sub, (loop and fld == "body") or (in_loop and not loop and False)))
+                        setattr(st, fld, unstatement(sub, loop and fld == "body"))
                 for h in getattr(st, "handlers", []) or []:
                     h.body = unstatement(h.body, False)
             out = []
